@@ -361,6 +361,8 @@ func Drive(cfg *Config, fn RunFn) int {
 			break
 		}
 		min := Minimise(used, class, 150, 12*time.Second, func(c []uint32) *Violation {
+			wd := watchdog(fmt.Sprintf("a minimisation re-run of run %d of %s/%s seed %d", run, cfg.Prop, cfg.Scenario, cfg.Seed))
+			defer wd.Stop()
 			o := fn(ReplayTape(c), false)
 			if o.V != nil && known.Match(o.V) != nil {
 				return nil
